@@ -7,12 +7,23 @@ pub mod graphdump;
 pub mod jobgen;
 pub mod linkmon;
 pub mod loopmon;
+pub mod scripts;
 pub mod srcmon;
 pub mod winmon_count;
 
 pub fn dispatch(args: &Args, report: &mut Report) {
     match args.prop.as_str() {
-        "C01" | "C05" | "C07" | "C08" | "C09" | "C16" => jobgen::run(args, report),
+        "C01" | "C05" | "C07" | "C08" | "C09" => jobgen::run(args, report),
+        "C16" => {
+            if args.sub.is_none() || args.sub.as_deref() == Some("jobgen") {
+                jobgen::run(args, report);
+            }
+            if args.sub.is_none() || args.sub.as_deref() == Some("reorder") {
+                scripts::run_reorder(args, report);
+            }
+        }
+        "C06" => scripts::run_c06(args, report),
+        "C17" => scripts::run_c17(args, report),
         "C02" => linkmon::run_c02(args, report),
         "C03" => linkmon::run_c03(args, report),
         "C10" => loopmon::run_c10(args, report),
